@@ -496,12 +496,27 @@ def must_pass(body, site_block, via_blocks, starts=(0,)):
     return body.path_to(list(starts), site_block, cut_blocks=set(via_blocks)) is None
 
 
-def always_followed_by(body, from_block, via_blocks):
+def failure_edges_of(body, call_bi):
+    """switch edges that mean 'the call in block call_bi failed' (Err/Break/None of its result)"""
+    ct = body.term_call(body.blocks[call_bi]["t"])
+
+    def pred(term, meaning, *_):
+        if term[0] == "discr" and meaning in ("Break", "Err", "None"):
+            return mir.has(term[1], lambda x: x is ct or x == ct)
+        if term[0] == "call" and term[1].endswith("::is_err") and meaning is True:
+            return mir.has(term, lambda x: x == ct)
+        if term[0] == "call" and term[1].endswith("::is_ok") and meaning is False:
+            return mir.has(term, lambda x: x == ct)
+        return False
+    return guard_edges(body, pred)
+
+
+def always_followed_by(body, from_block, via_blocks, cut_edges=()):
     """True iff no path from from_block reaches a `return` terminator without passing via_blocks"""
     via = set(via_blocks)
     if from_block in via:
         return True
-    reach = body.reachable([t for t, _ in body.succ_edges(from_block)], cut_blocks=via)
+    reach = body.reachable([t for t, _ in body.succ_edges(from_block)], cut_blocks=via, cut_edges=cut_edges)
     for bi in reach:
         if body.blocks[bi]["t"]["k"] == "ret":
             return False
@@ -622,3 +637,41 @@ def held_locks_at(body, site_bi):
         if guard_live_at(body, bi, site_bi):
             held.append((f, bi))
     return held
+
+
+def flows_into(body, local):
+    """terms written into the (array/vec/struct) variable `local` through mutating calls
+    (copy_from_slice, put_*, extend_from_slice, push, write, clone_from_slice, field stores)"""
+    out = []
+    MUT = ("copy_from_slice", "clone_from_slice", "extend_from_slice", "::push", "::put_", "::write", "::put_slice", "::extend")
+    for bi, t, path in body.calls():
+        if not path or not t["a"] or len(t["a"]) < 2:
+            continue
+        if not any(m in path for m in MUT):
+            continue
+        a0 = body.term_operand(t["a"][0])
+        if mir.has(a0, lambda x: x[0] == "var" and len(x) > 2 and x[2] == local):
+            for a in t["a"][1:]:
+                out.append(body.term_operand(a))
+    for bi, si, s in body.assigns():
+        if s["p"]["l"] == local and "p" in s["p"]:
+            out.append(body.term_rvalue(s["rv"]))
+    return out
+
+
+def expand_vars(body, term, depth=2):
+    """term plus everything that flows into the mutable variables it mentions (depth-limited)"""
+    out = [term]
+    frontier = [term]
+    seen = set()
+    for _ in range(depth):
+        nxt = []
+        for t in frontier:
+            for x in mir.walk(t):
+                if x[0] == "var" and len(x) > 2 and x[2] not in seen:
+                    seen.add(x[2])
+                    fl = flows_into(body, x[2]) + body.var_def_terms(x[2])
+                    nxt += fl
+        out += nxt
+        frontier = nxt
+    return out
